@@ -86,7 +86,7 @@ def gen_perturb(rng, nobj, steps, custom):
                 cont=rng.random() < 0.25, wr=rng.random() < 0.7)
 
 
-def gen_program(rng, idx, dynamic):
+def gen_program(rng, idx, dynamic, cond=False):
     L = ["from verif_c18_helpers import BigInt, RandStr, RandBytes, RandBool, RandNone, SRandStr, SRandBytes, RandVec, RandOri"]
     names = []
     features = []
@@ -129,15 +129,132 @@ def gen_program(rng, idx, dynamic):
         L.append(f"param p{i} = {rng.choice(['BigInt()', 'RandStr()', 'RandBytes()', 'RandBool()', gen_expr(rng, names, 2), '(' + gen_expr(rng, names, 1) + ', BigInt())'])}")
     if names and rng.random() < 0.3:
         L.append(f"require {names[0]} > -1000")
-    if rng.random() < 0.25 and nobj >= 1:
+    job = dict(name=f"prog{idx}", seed=rng.randint(0, 10 ** 6), mode2D=rng.random() < 0.3, dynamic=dynamic, features=features)
+    if cond:
+        gen_condition(rng, job, L, nobj)
+        L.append(f"new Object at (s0 * 10 + 500, {gen_expr(rng, names, 1)}), with qux (s0 + 1), with allowCollisions True")
+    elif rng.random() < 0.25 and nobj >= 1:
         L.append(rng.choice(["mutate ego", "mutate", "mutate ego by 3"]))
         features.append("mutate")
     src = "\n".join(L) + "\n"
-    job = dict(name=f"prog{idx}", src=src, seed=rng.randint(0, 10 ** 6), mode2D=rng.random() < 0.3, dynamic=dynamic, features=features)
+    job["src"] = src
     if dynamic:
         job["steps"] = rng.randint(2, 8)
         job["wr"] = rng.random() < 0.85
         job["perturbs"] = [gen_perturb(rng, nobj, job["steps"], custom) for _ in range(6)]
+    return job
+
+
+COND_PARAMS = {
+    "cf": "s0",
+    "ci": "DiscreteRange(0, 300)",
+    "cd": "s0 * 2 + Range(1, 2)",
+    "ct": "(Range(0, 1), DiscreteRange(1, 5))",
+    "cm": "Uniform(Range(0, 1), Range(5, 6))",
+    "cc": "4",
+}
+
+
+def gen_cond_value(rng, name, allow_defects):
+    """A type-compatible new value for a conditioned parameter: constants (falsy, negative, huge) and
+    distributions (primitive, deterministic with random dependencies).  `allow_defects`: also the two forms
+    whose encoding is known to be broken (findings F23 / F24)."""
+    if name == "cf":
+        return rng.choice([["const", 0.25], ["const", 0.0], ["const", -1.5], ["const", 1e6], ["expr", "Range(10, 11)"],
+                           ["expr", "Range(10, 11) + Range(0, 1)"], ["expr", "Uniform(Range(0, 1), Range(3, 4))"]])
+    if name == "ci":
+        return rng.choice([["const", 0], ["const", 7], ["const", 300], ["const", -40000], ["const", 2 ** 40],
+                           ["expr", "DiscreteRange(5, 9)"], ["expr", "DiscreteRange(-70000, -69990)"]])
+    if name == "cd":
+        return rng.choice([["const", 2.5], ["const", 0.0], ["expr", "Range(0, 1) + Range(2, 3)"], ["expr", "Range(0, 1) * DiscreteRange(2, 3)"],
+                           ["expr", "Uniform(Range(0, 1), Range(3, 4))"]] + ([["expr", "Range(10, 11)"]] * 2 if allow_defects else []))
+    if name == "ct":
+        return rng.choice([["const", [0.5, 2]], ["const", []], ["expr", "Range(0, 1) + Range(2, 3)"]] + ([["expr", "DiscreteRange(10, 11)"]] if allow_defects else []))
+    if name == "cm":
+        return rng.choice([["const", 3.0], ["expr", "Range(7, 8) + Range(0, 1)"]])
+    return rng.choice([["const", 9], ["const", "abc"], ["const", 0], ["const", None]])
+
+
+def gen_condition(rng, job, L, nobj):
+    """Adds parameters to condition on and the sequence of Scenario.conditionOn calls (stages on the same scenario object)."""
+    defects = rng.random() < 0.3
+    names = [n for n in COND_PARAMS if n != "cm" and rng.random() < 0.6] or ["cf"]
+    if defects and rng.random() < 0.5:
+        names.append("cm")
+    L.append("s0 = Range(0, 1)")
+    for n in names:
+        L.append(f"param {n} = {COND_PARAMS[n]}")
+    stages = []
+    for _ in range(rng.randint(1, 3)):
+        objs = sorted(rng.sample(range(nobj), rng.randint(0, nobj)))
+        ps = {n: gen_cond_value(rng, n, defects) for n in names if rng.random() < 0.5}
+        if not objs and not ps:
+            objs = [0]
+        stages.append(dict(objects=objs, params=ps, scenes=rng.choice([1, 1, 2])))
+    job["condition"] = stages
+    job["features"].append("condition")
+
+
+def gen_region(rng, cx, cy, size):
+    k = rng.choice(["rect", "rect", "circle", "poly"])
+    if k == "rect":
+        return f"RectangularRegion(({cx}, {cy}), {rng.choice([0, 0, 0.5, 7])}, {size}, {size + rng.randint(0, 10)})"
+    if k == "circle":
+        return f"CircularRegion(({cx}, {cy}), {size / 2})"
+    h = size / 2
+    return f"PolygonalRegion([({cx - h}, {cy - h}), ({cx + h}, {cy - h}), ({cx + h + rng.randint(0, 5)}, {cy + h}), ({cx}, {cy + h + rng.randint(1, 6)}), ({cx - h}, {cy + h})])"
+
+
+def gen_prune_program(rng, idx, dynamic=False):
+    """Programs in which PRUNING conditions positions at compile time (containers, visibility): objects placed
+    uniformly in regions that stick out of the workspace / of the ego's view, optionally conditioned further."""
+    L = ["from verif_c18_helpers import BigInt, RandStr, RandBytes, RandBool, RandNone, SRandStr, SRandBytes, RandVec, RandOri"]
+    features = ["prune"]
+    mode2D = rng.random() < 0.5
+    names = []
+    for i in range(rng.randint(0, 2)):
+        L.append(f"v{i} = {gen_expr(rng, names, 1)}")
+        names.append(f"v{i}")
+    if not mode2D and rng.random() < 0.3:
+        L.append(f"workspace = Workspace(BoxRegion(dimensions=({rng.randint(20, 30)}, {rng.randint(20, 30)}, {rng.randint(10, 30)})))")
+        box = True
+    else:
+        L.append(f"workspace = Workspace({gen_region(rng, 0, 0, rng.randint(20, 30))})")
+        box = False
+    nobj = rng.randint(1, 3)
+    if dynamic:
+        L += ["behavior Foo(k):", "    while True:", f"        take {rng.choice(RUNTIME_DRAWS)}", "        take k + Range(0, 1)"]
+    for j in range(nobj):
+        reg = f"BoxRegion(position=({rng.randint(-8, 8)}, {rng.randint(-8, 8)}, 0), dimensions=({rng.randint(25, 50)}, {rng.randint(25, 50)}, {rng.randint(4, 8)}))" \
+            if box and rng.random() < 0.7 else gen_region(rng, rng.randint(-8, 8), rng.randint(-8, 8), rng.randint(25, 50))
+        L.append(f"big{j} = {reg}")
+        forms = ["in big%d" % j] * 3
+        if j > 0:
+            forms += ["visible, in big%d" % j, "in big%d, with requireVisible True" % j]
+        if not mode2D and not box:
+            forms += ["on big%d" % j] * 2
+        spec = [rng.choice(forms)]
+        if rng.random() < 0.5:
+            spec.append(f"facing {gen_expr(rng, names, 1)} deg")
+        if j == 0:
+            spec.append(f"with visibleDistance {rng.choice([8, 12, 20, 50])}")
+            if rng.random() < 0.5:
+                spec.append(f"with viewAngle {rng.choice([90, 140, 200])} deg")
+        if rng.random() < 0.5:
+            spec.append(f"with foo {gen_expr(rng, names, 1)}")
+        if dynamic and j == 0:
+            spec.append(f"with behavior Foo({gen_expr(rng, names, 1)})")
+        spec.append("with allowCollisions True")
+        L.append(("ego = " if j == 0 else "") + "new Object " + ", ".join(spec))
+    job = dict(name=f"prune{idx}", seed=rng.randint(0, 10 ** 6), mode2D=mode2D, dynamic=dynamic, features=features,
+               max_iterations=3000, fresh_compile=True)
+    if rng.random() < 0.5:
+        gen_condition(rng, job, L, nobj)
+    job["src"] = "\n".join(L) + "\n"
+    if dynamic:
+        job["steps"] = rng.randint(2, 5)
+        job["wr"] = rng.random() < 0.85
+        job["perturbs"] = [gen_perturb(rng, nobj, job["steps"], False) for _ in range(3)]
     return job
 
 
@@ -149,7 +266,7 @@ def dag_tokens(d):
         elif n[0] == "P":
             t += ["P", n[1]]
         elif n[0] == "D":
-            t += ["D", str(len(n[1]))] + [str(x) for x in n[1]]
+            t += ["D", str(len(n[1]))] + [str(x) for x in n[1]] + [str(len(n[2]))] + [str(x) for x in n[2]]
         elif n[0] == "M":
             t += ["M", str(n[1]), str(len(n[2]))] + [str(x) for x in n[2]]
     return t
@@ -251,19 +368,31 @@ def spec_first_divergence(events, rec0, rec, tol):
     return False
 
 
+def cg_tokens(d):
+    t = [str(len(d["cg"]))]
+    for own, proxy in d["cg"]:
+        t += dag_tokens(dict(nodes=[own]))[1:]
+        t += ["-"] if proxy is None else ["C", str(len(proxy))] + [str(x) for x in proxy]
+    return t
+
+
 def scene_commands(r):
+    """[ENC, VIEW] and, when the implementation produced bytes, [DEC, cuts..., corruptions..., ROLES]."""
     d = r["dag"]
-    data = r["bytes"]
-    body = data[20:]
     toks = dag_tokens(d)
     pv = []
     for k, v in d["pvals"].items():
         pv += [str(k)] + val_tokens(v)
     enc_cmd = "ENC " + " ".join(toks + [str(len(d["pvals"]))] + pv + [str(len(d["deps"]))] + [str(x) for x in d["deps"]])
+    cmds = [enc_cmd, "VIEW " + " ".join(cg_tokens(d))]
     dec_prefix = "DEC " + " ".join(toks + [str(len(d["deps"]))] + [str(x) for x in d["deps"]]) + " "
     hdr = r["header"]
     hdr_prefix = f"HDR {hdr['version']} {hdr['ast']} {hdr['opts']} "
-    cmds = [enc_cmd, dec_prefix + (body or "-")]
+    if "bytes" not in r:
+        return cmds, dec_prefix, hdr_prefix
+    data = r["bytes"]
+    body = data[20:]
+    cmds.append(dec_prefix + (body or "-"))
     cuts = [t[0] for t in r["trunc"]]
     for cut in cuts:
         p = data[:2 * cut]
@@ -288,15 +417,43 @@ def replay_commands(rp):
     return cmds, idx
 
 
-def model_outputs(exe, r):
-    """All driver work for one program (run in a worker thread)."""
-    if "crash" in r or "skip" in r or r["dag"]["unsupported"]:
-        return r.get("name"), ([], {})
-    sc = scene_commands(r)[0]
-    rp = r.get("replay")
-    rc, idx = replay_commands(rp) if rp and "skip" not in rp else ([], [])
-    outs = common.run_driver(exe, sc + rc)
-    return r.get("name"), (outs[:len(sc)], dict(zip(idx, outs[len(sc):])))
+def model_all(exe, results, nshards):
+    """All driver work, sharded over `nshards` driver processes (one process per shard, commands of many
+    programs batched: starting a driver per program costs 1-2 s each on a loaded machine)."""
+    work = []
+    for r in results:
+        if "crash" in r or "skip" in r or r["dag"]["unsupported"]:
+            continue
+        sc = scene_commands(r)[0]
+        rp = r.get("replay")
+        rc, idx = replay_commands(rp) if rp and "skip" not in rp else ([], [])
+        work.append((r["name"], sc, rc, idx, sum(len(x) for x in sc) + sum(len(x) for x in rc)))
+    work.sort(key=lambda w: -w[4])
+    shards = [[] for _ in range(max(1, nshards))]
+    load = [0] * len(shards)
+    for w in work:
+        k = load.index(min(load))
+        shards[k].append(w)
+        load[k] += w[4] + 20000
+    shards = [sh for sh in shards if sh]
+
+    def run(sh):
+        lines = []
+        for _, sc, rc, _, _ in sh:
+            lines += sc + rc
+        outs = common.run_driver(exe, lines) if lines else []
+        res, o = {}, 0
+        for name, sc, rc, idx, _ in sh:
+            res[name] = (outs[o:o + len(sc)], dict(zip(idx, outs[o + len(sc):o + len(sc) + len(rc)])))
+            o += len(sc) + len(rc)
+        return res
+
+    out = {}
+    if shards:
+        with cf.ThreadPoolExecutor(len(shards)) as ex:
+            for res in ex.map(run, shards):
+                out.update(res)
+    return out
 
 
 def check_replay(c, exe, job, r, rp, model):
@@ -412,7 +569,9 @@ def val_len(v):
 def main():
     c = Check(PID, "proof")
     c.cov["rule"] = ("programs drawn from a seeded generator (random values of every codec type, nested/conditional "
-                     "distributions, shared values, big integers at every width boundary, behaviours drawing at run time); "
+                     "distributions, shared values, big integers at every width boundary, behaviours drawing at run time; "
+                     "scenarios conditioned by sequences of Scenario.conditionOn on objects/parameters and by pruning of "
+                     "positions - every stage of the same scenario object is a case); "
                      "a case is non-trivial when its encoding has a body (at least one sampled value) and distinct by the hash "
                      "of (program, sample bytes)")
     phase = {}
@@ -433,7 +592,9 @@ def main():
         for f in sorted(os.listdir(corpus_dir)):
             if f.endswith(".json"):
                 jobs.append(json.load(open(os.path.join(corpus_dir, f))))
-    jobs += [gen_program(rng, i, dynamic=(i % 3 == 0)) for i in range(nprog)]
+    jobs += [gen_program(rng, i, dynamic=(i % 3 == 0), cond=(i % 4 == 1 or i % 12 == 6)) for i in range(nprog)]
+    nprune = 14 if quick else 120
+    jobs += [gen_prune_program(rng, i, dynamic=(i % 5 == 4)) for i in range(nprune)]
     for j in jobs:
         j.setdefault("npos", 50 if quick else 200)
         j.setdefault("alts", 5 if quick else 16)
@@ -446,7 +607,8 @@ def main():
 
     # the implementation runs of the generated programs start now and proceed while the codec sweep runs
     nw = int(os.environ.get("VERIF_WORKERS", common.NCPU))   # dev knob: fewer implementation processes on a shared machine
-    chunks = [jobs[i::nw] for i in range(nw)]
+    jobs_by_cost = sorted(jobs, key=lambda j: -(3 * bool(j.get("dynamic")) + len(j.get("condition", [])) + 1))
+    chunks = [jobs_by_cost[i::nw] for i in range(nw)]
     chunks = [ch for ch in chunks if ch]
     impl_pool = cf.ThreadPoolExecutor(len(chunks))
     impl_futures = [impl_pool.submit(common.run_impl, "impl_c18.py", dict(kind="programs", programs=ch), 7000) for ch in chunks]
@@ -502,58 +664,99 @@ def main():
     t0 = time.time()
     by_name = {j["name"]: j for j in jobs}
     skipped = 0
-    with cf.ThreadPoolExecutor(int(os.environ.get("VERIF_WORKERS", common.NCPU))) as ex:
-        mouts = dict(ex.map(lambda r: model_outputs(exe, r), results))
+    mouts = model_all(exe, results, min(8, int(os.environ.get("VERIF_WORKERS", 8))))
     phase["model"] = round(time.time() - t0, 1)
     t0 = time.time()
     for r in results:
-        job = by_name.get(r.get("name"))
+        job = by_name.get(r.get("job_name"))
+        stage = r.get("stage")
         if "crash" in r:
             c.violation("harness", "implementation driver crashed", dict(job=job, crash=r["crash"]), no_input=True)
             continue
         if "skip" in r:
             skipped += 1
-            c.hist("skip:" + r["skip"].split(":")[0])
+            c.hist("skip:" + r["skip"].split(":")[0] + (":" + r["skip"].split(":")[1].strip() if r["skip"].startswith("condition:") else ""))
             continue
         d = r["dag"]
-        data = r["bytes"]
-        body = data[20:]
-        c.count((job["src"], data), nontrivial=len(body) > 0)
-        c.cov["traces_validated_against_impl"] += 1
+        cond = r.get("cond", {})
+        # what the matchers of the open findings look at (structure of the case, not the input text)
+        base = dict(job=job, stage=stage, condition=r.get("condition"), conditioned_nodes=cond.get("cond"),
+                    deterministic_value_conditioned_to_random_proxy=bool(cond.get("random_proxy")),
+                    conditioned_multiplexer=bool(cond.get("cond_mux")))
+        # parameters conditioned (at this or an earlier stage) to a bare primitive distribution
+        import re
+        nst = 0 if stage == "plain" else int(stage[4:].split(".")[0]) + 1
+        rnd = {n for st in (job.get("condition") or [])[:nst] for n, sp in st.get("params", {}).items()
+               if sp[0] == "expr" and re.fullmatch(r"(Range|DiscreteRange|Normal|TruncatedNormal)\([^()]*\)", sp[1])}
+        diffs_ = r.get("roundtrip_diff")
+        base["diff_only_params_conditioned_to_random"] = bool(rnd) and all(x[0] == "param" and x[1] in rnd for x in (diffs_ or []))
+        base["encode_fails"] = "bytes" not in r
         c.hist("programs")
-        c.hist("body_bytes<=16" if len(body) <= 32 else ("body_bytes<=128" if len(body) <= 256 else "body_bytes>128"))
+        c.hist("stage:" + ("plain" if stage == "plain" else "conditioned"))
+        c.hist("conditioned-nodes:" + ("0" if not cond.get("ncond") else ("1" if cond["ncond"] == 1 else "2+")))
+        for k in cond.get("cond", []):
+            c.hist("cond:" + k.split(":")[0])
         for n in d["nodes"]:
             c.hist("node:" + n[0] + (":" + n[1] if n[0] == "P" else ""))
-        # hypothesis wf_dag of C18_sample_roundtrip: dependencies are numbered before their users
-        wf = all(all(x < i for x in (n[1] if n[0] == "D" else ([n[1]] + n[2] if n[0] == "M" else []))) for i, n in enumerate(d["nodes"]))
-        if not wf:
-            c.violation("correspondence", "exported DAG violates wf_dag (exporter no longer post-order?)", dict(job=job), no_input=True)
+        # hypotheses of C18_conditioned_roundtrip: dag_ordered (dependencies are numbered before their users) ...
+        kids = lambda n: (n[1] + n[2]) if n[0] == "D" else ([n[1]] + n[2] if n[0] == "M" else [])
+        if not all(all(x < i for x in kids(n)) for i, n in enumerate(d["nodes"])):
+            c.violation("correspondence", "exported DAG violates dag_ordered (exporter no longer post-order?)", dict(job=job), no_input=True)
         if d["unsupported"]:
             c.hist("unsupported-node", len(d["unsupported"]))
             continue
+        # ... and conditioned_consistent: the encoder's and the decoder's walk of every deterministic node agree
+        incons = [(i, n[1], n[2]) for i, n in enumerate(d["nodes"]) if n[0] == "D" and n[1] != n[2]]
+        if incons:
+            c.violation("correspondence", "encoder and decoder walk different dependency lists at a deterministic node "
+                        "(hypothesis conditioned_consistent of the round-trip theorem fails)", dict(base, nodes=incons[:5]))
+        out = list(mouts[r["name"]][0])
+        # the model's code_view of (own dependencies, proxy dependencies) is the DAG the code was seen to walk
+        want_view = " ".join(dag_tokens(d))
+        if out[1] != want_view:
+            c.violation("correspondence", "the walks observed on the implementation are not the model's code_view of the conditioned DAG",
+                        dict(base, model=out[1][:600], impl=want_view[:600]))
+        if "bytes" not in r:
+            # the implementation cannot encode its own scene
+            c.count((job["src"], stage, "encode-fails"), nontrivial=True)
+            c.violation("roundtrip", "a scene of the scenario cannot be encoded: " + r["encode_outcome"], dict(base, info=r.get("encode_info")))
+            if out[0] != "NONE":
+                c.violation("correspondence", "model encodes a sample the implementation fails to encode", dict(base, model=out[0][:200]))
+            continue
+        data = r["bytes"]
+        body = data[20:]
+        c.count((job["src"], stage, data), nontrivial=len(body) > 0)
+        c.cov["traces_validated_against_impl"] += 1
+        if cond.get("ncond"):
+            c.count(("conditioned", job["src"], stage, data), nontrivial=True)
+        c.hist("body_bytes<=16" if len(body) <= 32 else ("body_bytes<=128" if len(body) <= 256 else "body_bytes>128"))
         # property oracle
         if not r["roundtrip_equal"]:
             POSE = {"position", "heading", "yaw", "pitch", "roll", "orientation"}
             diffs = r.get("roundtrip_diff") or []
             only_mut = bool(diffs) and all(d[0] in r.get("mutated", []) and d[1] in POSE for d in diffs)
             c.violation("roundtrip", "decoded scene differs from the original",
-                        dict(job=job, outcome=r["roundtrip_outcome"], diff=diffs, diff_only_pose_of_mutated_objects=only_mut))
-        if r.get("other_program") not in ("SerializationError",):
+                        dict(base, outcome=r["roundtrip_outcome"], diff=diffs, diff_only_pose_of_mutated_objects=only_mut))
+        for key, what in (("reencode_equal", "re-encoding the decoded scene gives different bytes"),
+                          ("redecode_equal", "decoding the same bytes twice gives different scenes"),
+                          ("fresh_equal", "a fresh compilation of the same program decodes the bytes to a different scene")):
+            if key in r:
+                c.hist("oracle:" + key)
+                if not r[key] and not (r.get("mutated") and key != "reencode_equal"):
+                    c.violation("roundtrip", what, dict(base, which=key, outcome=r.get("fresh_outcome")))
+        if "other_program" in r and r.get("other_program") not in ("SerializationError",):
             c.violation("foreign-data", "scene from a different program was not refused", dict(job=job, outcome=r.get("other_program")))
         if r.get("other_options") not in ("SerializationError", None):
             c.violation("foreign-data", "scene with different compile options was not refused", dict(job=job, outcome=r.get("other_options")))
         # model: encode and decode (driver output computed in parallel above)
-        cmds, dec_prefix, hdr_prefix = scene_commands(r)
         cuts = [t[0] for t in r["trunc"]]
-        out = list(mouts[r["name"]][0])
         roles = byte_roles(d, out.pop())
         if out[0] != "SOME " + (body or "-"):
-            c.violation("correspondence", "model encodes the sample to different bytes", dict(job=job, impl=body, model=out[0]))
-        want = " ; ".join(f"{k} {' '.join(val_tokens(v))}" for k, v in sorted(((int(k), v) for k, v in d["pvals"].items())))
-        got = out[1]
+            c.violation("correspondence", "model encodes the sample to different bytes", dict(base, impl=body, model=out[0]))
+        got = out[2]
         # the decoder only sees the values that were written (used values)
         if not got.startswith("OK ") or not got.endswith("| -"):
-            c.violation("correspondence", "model fails to decode the implementation's bytes", dict(job=job, model=got))
+            c.violation("correspondence", "model fails to decode the implementation's bytes", dict(base, model=got))
         else:
             dec = dict()
             for item in got[3:-3].strip().split(" ; "):
@@ -561,26 +764,27 @@ def main():
                     parts = item.split()
                     dec[int(parts[0])] = parts[1:]
             for k, v in dec.items():
-                if val_tokens(d["pvals"][str(k)]) != v:
-                    c.violation("correspondence", "model decodes a different value", dict(job=job, node=k, impl=d["pvals"][str(k)], model=v))
-        o = 2
+                if str(k) not in d["pvals"] or val_tokens(d["pvals"][str(k)]) != v:
+                    c.violation("correspondence", "model decodes a different value", dict(base, node=k, impl=d["pvals"].get(str(k)), model=v))
+        o = 3
         for (cut, oc), m in zip(r["trunc"], out[o:o + len(cuts)]):
             c.count(n=1)
             c.hist("trunc:" + oc)
             if oc != "SerializationError":
-                c.violation("truncation", "truncated data not refused with SerializationError", dict(job=job, cut=cut, outcome=oc, model=m, info=r.get("trunc_info")))
+                c.violation("truncation", "truncated data not refused with SerializationError", dict(base, cut=cut, outcome=oc, model=m, info=r.get("trunc_info")))
             if not m.startswith("ERR"):
-                c.violation("correspondence", "model accepts a truncated encoding", dict(job=job, cut=cut, model=m))
+                c.violation("correspondence", "model accepts a truncated encoding", dict(base, cut=cut, model=m))
         o += len(cuts)
         for (pos, b, oc), m in zip(r["corrupt"], out[o:]):
             c.count(n=1)
             c.hist("corrupt:" + oc.split(":")[0])
             c.hist("corrupt-role:" + (roles[pos - 10] if pos >= 10 and pos - 10 < len(roles) else "header") + ":" + oc.split(":")[0])
             if oc.startswith("other"):
-                c.violation("corruption", "corrupted data fails with something other than SerializationError", dict(job=job, pos=pos, byte=b, outcome=oc, info=r.get("corrupt_info")))
+                c.violation("corruption", "corrupted data fails with something other than SerializationError", dict(base, pos=pos, byte=b, outcome=oc, info=r.get("corrupt_info")))
             if m.startswith("ERR") and oc == "ok":
-                c.violation("correspondence", "implementation decodes a corruption the model refuses", dict(job=job, pos=pos, byte=b, model=m))
-        c.sample(dict(program=job["src"], bytes=data, dag_nodes=len(d["nodes"]), truncations=len(cuts), corruptions=len(r["corrupt"])), limit=3)
+                c.violation("correspondence", "implementation decodes a corruption the model refuses", dict(base, pos=pos, byte=b, model=m))
+        c.sample(dict(program=job["src"], stage=stage, condition=r.get("condition"), conditioned=cond.get("cond"), bytes=data,
+                      dag_nodes=len(d["nodes"]), truncations=len(cuts), corruptions=len(r["corrupt"])), limit=3 if stage == "plain" else 6)
         # replay
         rp = r.get("replay")
         if rp and "skip" not in rp:
